@@ -45,6 +45,8 @@ class AppLog:
         self.step = 0
         self.connect_outcomes = collections.deque()   # ('ret', v) | ('raise',)
         self.fault = {'message': 0, 'disconnect': 0}
+        self.fault_exc = {'message': [], 'disconnect': []}    # exception class names, FIFO
+        self.connect_sends = []          # payloads the connect handler sends to the new session
         self.environs = {}
         self.on_event = None             # optional callback(event, sid, arg)
         self.outcome_by_ord = {}         # open ordinal -> ('ret', v) | ('raise',)
@@ -80,7 +82,7 @@ class AppLog:
             self.on_event('message', sid, data)
         if self.fault['message'] > 0:
             self.fault['message'] -= 1
-            raise RuntimeError('scripted message handler failure')
+            raise self._exc('message')('scripted message handler failure')
 
     def _disconnect(self, sid, reason):
         self.events.append((self.world.clock.now, 'disconnect', sid, reason))
@@ -89,27 +91,48 @@ class AppLog:
             self.on_event('disconnect', sid, reason)
         if self.fault['disconnect'] > 0:
             self.fault['disconnect'] -= 1
-            raise RuntimeError('scripted disconnect handler failure')
+            raise self._exc('disconnect')('scripted disconnect handler failure')
 
-    def install(self, server, coroutine_handlers):
+    def _exc(self, event):
+        name = self.fault_exc[event].pop(0) if self.fault_exc[event] else 'RuntimeError'
+        return {'RuntimeError': RuntimeError, 'TypeError': TypeError, 'KeyError': KeyError,
+                'ValueError': ValueError, 'OSError': OSError}.get(name, RuntimeError)
+
+    def install(self, server, coroutine_handlers, legacy_disconnect=False):
+        """legacy_disconnect: register the documented one-argument disconnect handler; the reason
+        is then not visible to the log (recorded as None)."""
         if coroutine_handlers:
             async def connect(sid, environ):
-                return self._connect(sid, environ)
+                r = self._connect(sid, environ)
+                for d in self.connect_sends:
+                    await server.send(sid, d)
+                return r
 
             async def message(sid, data):
                 return self._message(sid, data)
 
-            async def disconnect(sid, reason):
-                return self._disconnect(sid, reason)
+            if legacy_disconnect:
+                async def disconnect(sid):
+                    return self._disconnect(sid, None)
+            else:
+                async def disconnect(sid, reason):
+                    return self._disconnect(sid, reason)
         else:
             def connect(sid, environ):
-                return self._connect(sid, environ)
+                r = self._connect(sid, environ)
+                for d in self.connect_sends:
+                    server.send(sid, d)
+                return r
 
             def message(sid, data):
                 return self._message(sid, data)
 
-            def disconnect(sid, reason):
-                return self._disconnect(sid, reason)
+            if legacy_disconnect:
+                def disconnect(sid):
+                    return self._disconnect(sid, None)
+            else:
+                def disconnect(sid, reason):
+                    return self._disconnect(sid, reason)
         server.on('connect', connect)
         server.on('message', message)
         server.on('disconnect', disconnect)
@@ -118,7 +141,8 @@ class AppLog:
 class AWorld:
     impl = 'async'
 
-    def __init__(self, config=None, coroutine_handlers=True, app_kwargs=None, raise_after_close=True):
+    def __init__(self, config=None, coroutine_handlers=True, app_kwargs=None, raise_after_close=True,
+                 legacy_disconnect=False):
         import engineio
         self.clock = vclock.reset()
         vclock.patch_engineio_time()
@@ -129,7 +153,7 @@ class AWorld:
         self.config = cfg
         self.server = engineio.AsyncServer(async_mode='asgi', **cfg)
         self.app_log = AppLog(self)
-        self.app_log.install(self.server, coroutine_handlers)
+        self.app_log.install(self.server, coroutine_handlers, legacy_disconnect)
         self.app = engineio.ASGIApp(self.server, **(app_kwargs or {}))
         self.raise_after_close = raise_after_close
         self.reqs, self.conns, self.calls = [], [], []
